@@ -137,12 +137,15 @@ def rxRow : P (Bytes × Bytes × Bool) := do
   pure (pat, s, b)
 
 def cfg : P Cfg := do
+  let f2 ← bool
+  let f3 ← bool
+  let f4 ← bool
   let force ← bool
   let noComment ← bool
   let pres ← counted bytes
   let ms ← counted bytes
   let rows ← counted rxRow
-  pure ⟨ms, force, noComment, pres, fun pat s => rows.any (fun r => r.1 == pat && r.2.1 == s && r.2.2)⟩
+  pure ⟨⟨f2, f3, f4⟩, ms, force, noComment, pres, fun pat s => rows.any (fun r => r.1 == pat && r.2.1 == s && r.2.2)⟩
 
 /-! rendering -/
 
